@@ -65,10 +65,6 @@ Ltac step_fwd1 H :=
 (* ---- facts about the spec's byte classes ---- *)
 Definition head_nows (l : list N) : Prop :=
   match l with [] => True | c :: _ => ws_byte c = false end.
-(* the byte behind a value must not be one skip_number would eat (NUL included: strchr finds
-   the terminator of numchars) *)
-Definition value_end_ok (l : list N) : bool :=
-  match l with [] => true | c :: _ => negb (num_byte c || (c =? 0)%N) end.
 
 Lemma esc_val_not_u e v : esc_val e = Some v -> (e =? 117)%N = false.
 Proof.
@@ -772,10 +768,10 @@ Proof.
       rewrite M by (unfold cstr; cbn [length app]; lia). cbn [bind firstn bytes_eqb cstr app N.eqb Pos.eqb andb]. exact (at_fwd _ _ 4 _ Hat ltac:(cbn [length]; lia)).
   - assert (E : (4 <=? length b - p) = true) by (apply Nat.leb_le; lia).
     destruct (5 <=? length b - p) eqn:E5.
-    + apply Nat.leb_le in E5. rewrite M by (unfold cstr; cbn [length app]; lia). cbn [bind firstn bytes_eqb cstr app N.eqb Pos.eqb andb]. rewrite E.
-      rewrite M by (unfold cstr; cbn [length app]; lia). cbn [bind firstn bytes_eqb cstr app N.eqb Pos.eqb andb]. Show. rewrite E.
+    + apply Nat.leb_le in E5. rewrite M by (unfold cstr; cbn [length app]; lia). cbn [bind firstn bytes_eqb cstr app N.eqb Pos.eqb andb]. rewrite ?E.
+      rewrite M by (unfold cstr; cbn [length app]; lia). cbn [bind firstn bytes_eqb cstr app N.eqb Pos.eqb andb]. rewrite ?E.
       rewrite M by (unfold cstr; cbn [length app]; lia). cbn [bind firstn bytes_eqb cstr app N.eqb Pos.eqb andb]. exact (at_fwd _ _ 4 _ Hat ltac:(cbn [length]; lia)).
-    + rewrite E. rewrite M by (unfold cstr; cbn [length app]; lia). cbn [bind firstn bytes_eqb cstr app N.eqb Pos.eqb andb]. rewrite E.
+    + rewrite E. rewrite M by (unfold cstr; cbn [length app]; lia). cbn [bind firstn bytes_eqb cstr app N.eqb Pos.eqb andb]. rewrite ?E.
       rewrite M by (unfold cstr; cbn [length app]; lia). cbn [bind firstn bytes_eqb cstr app N.eqb Pos.eqb andb]. exact (at_fwd _ _ 4 _ Hat ltac:(cbn [length]; lia)).
 Qed.
 
@@ -803,3 +799,61 @@ Proof.
   exact (json_find_at json_numchars json_wsbytes json_literals json_escapes
            repo_T_ws repo_T_num repo_T_lit repo_T_esc lead w ms trail key Hl Hv Hk).
 Qed.
+
+(* ================= non-vacuity: documents satisfying the hypotheses ================= *)
+
+(* the 18 bytes  { x : [1, 2] , y : 3 }  written compactly except for the blank after the comma
+   inside the nested array (names x and y quoted, of course) *)
+Definition ex1 : jvalue :=
+  JObj [] [Member [] [Raw 120] [] [] (JArr [] [Elem [] (JNum [49]) []; Elem [32] (JNum [50]) []]) [];
+           Member [] [Raw 121] [] [] (JNum [51]) []]%N.
+Definition ex1_bytes : list N :=
+  [123; 34; 120; 34; 58; 91; 49; 44; 32; 50; 93; 44; 34; 121; 34; 58; 51; 125]%N.
+Example ex1_render : render ex1 = ex1_bytes.
+Proof. reflexivity. Qed.
+Example ex1_wf : wf ex1 = true /\ rfc_valid ex1 = true.
+Proof. split; reflexivity. Qed.
+Example ex1_spec : find_spec [] ex1 [] [121%N] = 16.
+Proof. reflexivity. Qed.
+Example ex1_now : json_find_c ex1_bytes [121%N] = Ok 16.
+Proof. vm_compute. reflexivity. Qed.
+(* regression: before the repair the nested array was mis-skipped and y reported absent *)
+Example ex1_old_missed_y : json_find_old ex1_bytes [121%N] = Ok 18.
+Proof. vm_compute. reflexivity. Qed.
+
+(* ex2_bytes below: blanks at every kind of place, all three ways of writing a character,
+   nesting, a duplicate key, a name that only equals the key through a \u escape (never
+   matches), trailing garbage *)
+Definition ex2 : jvalue :=
+  (JObj [9] [
+    Member [] [Raw 97; Uni 48 48 54 50] [32] [32] (JNum [49]) [32];
+    Member [13; 10; 32] [Raw 97; Esc 34; Raw 98; Esc 47] [32] []
+      (JArr [32] [Elem [] (JLit LTrue) [32];
+                  Elem [32] (JObj [] [Member [] [Raw 107] [] [] (JLit LNull) []]) [32];
+                  Elem [] (JStr [Raw 115; Esc 92]) []]) [32];
+    Member [32] [Raw 97; Raw 98] [] [] (JNum [45; 49; 46; 53; 101; 43; 51]) [];
+    Member [32] [Raw 97; Raw 98] [32] [32] (JLit LFalse) []])%N.
+Definition ex2_bytes : list N :=
+  [32; 123; 9; 34; 97; 92; 117; 48; 48; 54; 50; 34; 32; 58; 32; 49; 32; 44; 13; 10; 32; 34; 97; 92;
+   34; 98; 92; 47; 34; 32; 58; 91; 32; 116; 114; 117; 101; 32; 44; 32; 123; 34; 107; 34; 58; 110;
+   117; 108; 108; 125; 32; 44; 34; 115; 92; 92; 34; 93; 32; 44; 32; 34; 97; 98; 34; 58; 45; 49;
+   46; 53; 101; 43; 51; 44; 32; 34; 97; 98; 34; 32; 58; 32; 102; 97; 108; 115; 101; 125; 120]%N.
+Example ex2_render : [32%N] ++ render ex2 ++ [120%N] = ex2_bytes.
+Proof. reflexivity. Qed.
+Example ex2_wf : wf ex2 = true /\ rfc_valid ex2 = true.
+Proof. split; reflexivity. Qed.
+(* key ab: the first member is written ab and never matches; the first of the two real ones wins *)
+Example ex2_spec_ab : find_spec [32%N] ex2 [120%N] [97; 98]%N = 66.
+Proof. reflexivity. Qed.
+Example ex2_now_ab : json_find_c ex2_bytes [97; 98]%N = Ok 66.
+Proof. vm_compute. reflexivity. Qed.
+(* the key a, quote, b, slash is found through the two-character escapes *)
+Example ex2_now_escaped : json_find_c ex2_bytes [97; 34; 98; 47]%N = Ok 31.
+Proof. vm_compute. reflexivity. Qed.
+(* a prefix of a name, an extension of a name and the empty key are absent: the end is returned *)
+Example ex2_now_absent :
+  json_find_c ex2_bytes [97%N] = Ok 89 /\ json_find_c ex2_bytes [97; 98; 99]%N = Ok 89 /\
+  json_find_c ex2_bytes [] = Ok 89.
+Proof. vm_compute. repeat split; reflexivity. Qed.
+Example ex2_skip_value : skip_value_c ex2_bytes 31 = Ok 58.
+Proof. vm_compute. reflexivity. Qed.
